@@ -1,7 +1,7 @@
 #!/bin/bash
 # tools/confirm_ts_seed.sh <id> <patch> <demo.mjs>: TS-runtime seeds. Strips the client (esm flavour) with and without
 # the patch in a scratch worktree, runs the 397 Rust tests with the patch, runs the node demo against both builds.
-id=$1; patch=$2; demo=$3
+id=$1; patch=$2; demo=$3; argkind=${4:-file}
 wt=/tmp/confirm-$id
 git -C /repo worktree remove --force $wt 2>/dev/null; git -C /repo worktree add -q $wt HEAD || exit 2
 export CARGO_TARGET_DIR=/tmp/confirm-target CARGO_NET_OFFLINE=true
@@ -13,6 +13,6 @@ passed=$(cargo test --workspace --offline 2>&1 | grep -E "^test result" | awk '{
 echo "suite with patch: $passed"
 strip /tmp/confirm-$id-js/with
 cp $demo /tmp/confirm-$id-js/demo.mjs
-( cd /tmp/confirm-$id-js && BEFF_CODEGEN_V2=$PWD/with/codegen-v2.js BEFF_CODEGEN=$PWD/with/codegen-v2.js BEFF_CLIENT=$PWD/with BEFF_RUNTIME=$PWD/with/codegen-v2.js node demo.mjs $PWD/with/codegen-v2.js > with.out 2>&1; echo "demo with patch: exit $? ($(grep -c FAIL with.out) FAIL lines) $(tail -1 with.out | cut -c1-100)" )
-( cd /tmp/confirm-$id-js && BEFF_CODEGEN_V2=$PWD/without/codegen-v2.js BEFF_CODEGEN=$PWD/without/codegen-v2.js BEFF_CLIENT=$PWD/without BEFF_RUNTIME=$PWD/without/codegen-v2.js node demo.mjs $PWD/without/codegen-v2.js > without.out 2>&1; echo "demo without patch: exit $? $(tail -1 without.out | cut -c1-100)" )
+( cd /tmp/confirm-$id-js && BEFF_CODEGEN_V2=$PWD/with/codegen-v2.js BEFF_CODEGEN=$PWD/with/codegen-v2.js BEFF_CLIENT=$PWD/with BEFF_RUNTIME=$PWD/with/codegen-v2.js node demo.mjs $( [ $argkind = dir ] && echo $PWD/with || echo $PWD/with/codegen-v2.js ) > with.out 2>&1; echo "demo with patch: exit $? ($(grep -c FAIL with.out) FAIL lines) $(tail -1 with.out | cut -c1-100)" )
+( cd /tmp/confirm-$id-js && BEFF_CODEGEN_V2=$PWD/without/codegen-v2.js BEFF_CODEGEN=$PWD/without/codegen-v2.js BEFF_CLIENT=$PWD/without BEFF_RUNTIME=$PWD/without/codegen-v2.js node demo.mjs $( [ $argkind = dir ] && echo $PWD/without || echo $PWD/without/codegen-v2.js ) > without.out 2>&1; echo "demo without patch: exit $? $(tail -1 without.out | cut -c1-100)" )
 cd /; git -C /repo worktree remove --force $wt; rm -rf /tmp/confirm-$id-js
